@@ -154,6 +154,38 @@ func verifC06_BasicAuth() {
 	}
 }
 
+// verifC06_BasicAuthExact: the configured pair with a blank / tab / newline / NUL added in front
+// or behind (of the whole credentials, of the user or of the password) is a different pair:
+// credentials are compared exactly, not after normalisation.
+func verifC06_BasicAuthExact() {
+	user := verifString("user", 2)
+	pass := verifString("password", 2)
+	for i := 0; i < len(user); i++ {
+		verifAssume(user[i] != ':')
+	}
+	verifAssume(len(user) > 0)
+	bav := &BasicAuthValidator{spec: &BasicAuthValidatorSpec{}, authorizedUsersCache: &vUsers{user, pass}}
+	pads := []string{"", " ", "\n", "\t"}[:verifBound("paddings")]
+	pre := pads[verifChoose("paddingInFront", len(pads))]
+	mid1 := pads[verifChoose("paddingAfterUser", len(pads))]
+	mid2 := pads[verifChoose("paddingBeforePassword", len(pads))]
+	post := pads[verifChoose("paddingBehind", len(pads))]
+	presented := pre + user + mid1 + ":" + mid2 + pass + post
+	_, req := vRequest()
+	req.Std().Header["Authorization"] = []string{"Basic " + presented}
+	err := bav.Validate(req)
+	valid := presented == user+":"+pass
+	verifAssert((err == nil) == valid, "credentials-are-compared-exactly")
+	if pre+mid1+mid2+post != "" {
+		verifCover("padded-credentials")
+		if valid {
+			verifCover("padding-that-is-part-of-the-configured-pair")
+		}
+	} else {
+		verifCover("exact-credentials")
+	}
+}
+
 // ---- signature: the body the signer sees ----------------------------------------------
 
 type vBody struct {
